@@ -60,6 +60,11 @@ class SourceDataWrapper(ABC):
             raise ValueError(f"Starting index {self._from_idx} and end index {self._to_idx} do not yield a positive "
                              f"number of rows to be loaded")
 
+        # a data set with fewer rows than are to be loaded cannot fill its column (a single row would be broadcast)
+        for dataset_name in mapping.values():
+            if (n := self._data_source[dataset_name].shape[0]) < self._to_idx:
+                raise ValueError(f"Data set '{dataset_name}' has {n} rows; {self._to_idx} are needed")
+
     @property
     def n_rows(self) -> int:
         """Total number of data rows."""
